@@ -49,10 +49,10 @@ def parse_type(s):
     pos = [0]
 
     def rec():
-        if s[pos[0]] == "[":
+        if pos[0] < len(s) and s[pos[0]] == "[":
             pos[0] += 1
             inner = rec()
-            if s[pos[0]] != "]":
+            if pos[0] >= len(s) or s[pos[0]] != "]":
                 raise ValueError(s)
             pos[0] += 1
             t = ("l", inner)
@@ -347,8 +347,13 @@ def _sdl_fdef(sm, f):
     s += "  " + f["name"]
     if f.get("args"):
         s += "(" + ", ".join(_sdl_idef(sm, a) for a in f["args"]) + ")"
-    s += ": " + f["type"] + _sdl_dep(f.get("dep"))
+    s += ": " + f["type"] + _sdl_dep(f.get("dep")) + _sdl_applied(f)
     return s
+
+
+def _sdl_applied(x):
+    """raw directive applications ('@remove', '@rename(to: "x")'), SDL only, not part of the dump."""
+    return "".join(" " + a for a in x.get("applied") or ())
 
 
 def sdl_typedef(sm, t):
@@ -358,6 +363,7 @@ def sdl_typedef(sm, t):
         s += ("type " if k == "object" else "interface ") + t["name"]
         if k == "object" and t.get("interfaces"):
             s += " implements " + " & ".join(t["interfaces"])
+        s += _sdl_applied(t)
         if t.get("fields"):
             s += " {\n" + "\n".join(_sdl_fdef(sm, f) for f in t["fields"]) + "\n}"
     elif k == "union":
@@ -470,6 +476,13 @@ def _resolver_value(tag, local_vars):
             info = v
     if info is not None and isinstance(root, dict):
         return root.get(info.field_definition.name)
+    if info is not None and root is not None:
+        # not one of our dictionaries (e.g. introspection values): behave like the stock resolver
+        from py_gql.execution.default_resolver import default_resolver
+
+        kw = {k: v for k, v in local_vars.items() if k not in ("root", "ctx", "info", "kw")}
+        kw.update(local_vars.get("kw") or {})
+        return default_resolver(root, local_vars.get("ctx"), info, **kw)
     return None
 
 
